@@ -3,13 +3,12 @@ Cases: (hist KB (build 0 query) (ask 0) x k): cut-free programs; every request i
 the reference search (Spec/SpecSolve.v), and the model of the solver with the implementation."""
 from lib.sx import *
 from lib import histcheck, pretty
-from gen import progs
+from gen import progs, histgen
 
 WANT = ("answers", "strings")
 SPEC_COLUMN_IS_ORACLE_INPUT = True
 equivalent = histcheck.equivalent
 OPTS = dict(allow_cut=False, allow_not=False, allow_print=False)
-NLIB = len(progs.LIB)
 
 def cases(tier, rng):
     out = []
@@ -47,16 +46,6 @@ RULE = ("(a) all bodies of 1-3 goals over a 7-goal alphabet (multi-answer calls,
 def nontrivial(case, tag, result):
     return result.count("(ans (ss") >= 2 or result.count("(strs s") and result.count(" s") >= 3
 
-def describe(case):
-    return pretty.hist(case, NLIB if "(a s112." in case or True else 0)
-
+describe = histgen.describe
 REL_STATS = {}
-def relations(cases, impl, model):
-    REL_STATS.clear(); REL_STATS.update(histories_checked_against_reference=0, reference_outside_or_unfinished=0)
-    for (case, tag), (iout, ires), (mout, mres, spec) in zip(cases, impl, model):
-        if spec == "-" or "(trace" not in spec: REL_STATS["reference_outside_or_unfinished"] += 1; continue
-        REL_STATS["histories_checked_against_reference"] += 1
-        for kind, why, _ in histcheck.check_hist(case, iout, ires, spec, WANT):
-            yield dict(case=case, tag=tag, why=why, implementation=dict(output=iout, result=ires[:2000]),
-                       specification=dict(trace=spec[:2000]), readable=describe(case))
-            break
+relations = histgen.make_relations(WANT, REL_STATS)
